@@ -304,7 +304,7 @@ fn c01_main(tier: &str, seed: u64, cases: Option<usize>, out_path: &str, child: 
         }
         writeln!(out, "TWIN same-process").unwrap();
         // the fs / io_uring family repeats on a "slow machine": 1.6 ticks of real time per step
-        let slow = fams[*fi].name == "c01_fs" || n % 8 == 3;
+        let slow = fams[*fi].name == "c01_fs" || fams[*fi].name.starts_with("c01_hold") || n % 8 == 3;
         if slow {
             common::SLOW_PCT.store(160, std::sync::atomic::Ordering::Relaxed);
         }
